@@ -46,6 +46,7 @@ type vClient struct {
 	fixed       int  // if >= 0 every transaction gets this reaction
 	lifetime    uint32
 	writeFails  bool
+	txFails     bool // a transaction may fail before anything is sent (base socket closed)
 }
 
 func (c *vClient) WriteTo(data []byte, to net.Addr) (int, error) {
@@ -57,6 +58,9 @@ func (c *vClient) WriteTo(data []byte, to net.Addr) (int, error) {
 }
 
 func (c *vClient) PerformTransaction(msg *stun.Message, to net.Addr, dontWait bool) (TransactionResult, error) {
+	if c.txFails && vBool() {
+		return TransactionResult{}, errVFake
+	}
 	react := c.fixed
 	if react < 0 {
 		react = vIntRange(0, 4)
